@@ -238,9 +238,11 @@ def queries(tier):
             (['insert', 'insert', 'remove'], [1, 1, 1]),
             (['insert'], [0]), (['insert', 'insert'], [0, 1]), (['insert'], [3])]
     if th:
-        seqs += [(['insert', 'insert', 'insert'], [2, 1, ('flip', 0)]), (['insert_raw', 'insert', 'remove'], [2, 2, ('flip', 0)]),
-                 (['insert', 'insert', 'insert'], [1, 1, 1]), (['insert_raw', 'insert'], [2, 2]), (['insert', 'insert'], [2, 2]), (['insert'], [4]),
-                 (['insert', 'insert'], [('pre', b'A', 2), ('pre', b'a', 2)]), (['insert', 'insert'], [('pre', b'a', 2), ('pre', b'A', 2)])]
+        # (two independent 2-byte algorithm names, or three inserts with a 2-byte name, cost 10-15 CPU-minutes each and were dropped:
+        #  the case-flip forms above cover replacement in another letter case with one free name)
+        seqs += [(['insert', 'insert', 'insert'], [1, 1, ('flip', 0)]), (['insert_raw', 'insert', 'remove'], [2, 1, ('flip', 0)]),
+                 (['insert', 'insert', 'insert'], [1, 1, 1]), (['insert_raw', 'insert'], [2, 1]), (['insert', 'insert'], [2, 1]), (['insert'], [4]),
+                 (['insert', 'insert'], [('pre', b'A', 2), ('pre', b'a', 1)])]
     # raw values long enough to be hex pairs in either letter case
     for ops, al in ((['insert_raw'], [1]), (['insert_raw', 'insert_raw'], [1, ('flip', 0)]), (['insert', 'insert_raw'], [1, ('flip', 0)])):
         qs.append(Query('typed %s alg=%s raw=⟦2⟧' % ('+'.join(ops), al), h_seq, {'ops': ops, 'alen': al, 'vlen': 2},
@@ -257,17 +259,17 @@ def queries(tier):
         qs.append(Query('%s %s' % (T, show_template(parts)), h_purl, {'T': T, 'parts': parts}, bound='input = %s' % show_template(parts)))
     for T in ('String', 'Purl'):
         ty = 't' if T == 'String' else 'cargo'
-        for n in lens(5 if th else 4, 1):
+        for n in lens(5 if th and T == 'String' else 4, 1):
             addp(T, ['pkg:%s/n?checksum=' % ty, ('hole', 'h', n)])
-        if th:
-            for n in lens(2, 1):
-                addp(T, ['pkg:%s/n?checksum=' % ty, ('hole', 'a', n), ':', ('hole', 'x', 2), ',', ('hole', 'b', n), ':', ('hole', 'y', 2)])
+        if th and T == 'String':
+            # (the variant with two-byte algorithm names -- eight free bytes -- ran for more than an hour and was dropped)
+            addp(T, ['pkg:%s/n?checksum=' % ty, ('hole', 'a', 1), ':', ('hole', 'x', 2), ',', ('hole', 'b', 1), ':', ('hole', 'y', 2)])
         addp(T, ['pkg:%s/n?checksum=a:' % ty, ('hole', 'x', 2), ',B:', ('hole', 'y', 2)])
         addp(T, ['pkg:%s/n?checksum=' % ty, ('hole', 'a', 1), ':0a,', ('hole', 'b', 1), ':1B'])
         if th:
             addp(T, ['pkg:%s/n?checksum=' % ty, ('hole', 'a', 2), ':00,', ('hole', 'b', 2), ':11'])
         addp(T, ['pkg:%s/n?CheckSum=b', ('hole', 's', 3), 'aB,A', ('hole', 't', 3), 'Cd'][0:1] + ['b', ('hole', 's', 3), 'aB,A', ('hole', 't', 3), 'Cd'] if False else
-             ['pkg:%s/n?CheckSum=b' % ty, ('hole', 's', 3 if th else 2), 'aB,A', ('hole', 't', 3 if th else 2), 'Cd'])
+             ['pkg:%s/n?CheckSum=b' % ty, ('hole', 's', 3 if th and T == 'String' else 2), 'aB,A', ('hole', 't', 2), 'Cd'])
         addp(T, ['pkg:%s/n?checksum=' % ty, ('hole', 'a', 1), ':00,', ('hole', 'b', 1), ':11,', ('hole', 'c', 1), ':22'])
         addp(T, ['pkg:%s/n?k=v&checksum=md5:' % ty, ('hole', 'x', 4), '&z=1#s'])
     return qs
